@@ -817,7 +817,8 @@ pub trait StoreFor<T: Storable>: Configurable + private::StoreCallbacks<T> {
     #[inline]
     fn has(&self, item: impl Request<T>) -> bool {
         if let Some(handle) = item.to_handle(self) {
-            self.store().get(handle.as_usize()).is_some()
+            //(the slot of a removed item is still there, but empty)
+            matches!(self.store().get(handle.as_usize()), Some(Some(_)))
         } else {
             false
         }
